@@ -943,7 +943,8 @@ func printCallgrind(w io.Writer, rpt *Report) error {
 	nodeNames := getDisambiguatedNames(g)
 
 	fmt.Fprintln(w, "positions: instr line")
-	fmt.Fprintln(w, "events:", o.SampleType+"("+o.OutputUnit+")")
+	// A line break would split the header line.
+	fmt.Fprintln(w, "events:", strings.NewReplacer("\r", " ", "\n", " ").Replace(o.SampleType+"("+o.OutputUnit+")"))
 
 	objfiles := make(map[string]int)
 	files := make(map[string]int)
